@@ -140,6 +140,7 @@ func Start(p *Plan) error {
 		if err := os.Chdir("/"); err != nil {
 			return err
 		}
+		p.Dir = "/" // what recorded paths are made relative to
 	}
 	simOn = true
 	return nil
